@@ -10,7 +10,7 @@ from props import _c06_tables
 ID = "C06"
 COQ_REQUIRE = "C06.Run"
 SHARD = 150
-RULE = ("14 LIVE cases per run: real children (prctl names with parentheses/blanks/newline/backslash/non-UTF-8/15-byte "
+RULE = ("15 LIVE cases per run (one child with 7000 supplementary groups: a real status file > 32 KiB): real children (prctl names with parentheses/blanks/newline/backslash/non-UTF-8/15-byte "
         "truncation/'Uid:\\t0\\t0\\t0'/'ctxt_switches:\\t', a copied /bin/sleep under a hostile file name, 4 named threads, nice 7, "
         "SIGSTOPped, zombie, controlling pty) whose real /proc/<pid>/stat, status and task/<tid>/stat must equal byte for byte "
         "what k_stat/k_status print for the parsed record, then go through model, psutil-over-fake-tree and psutil over the real "
@@ -24,7 +24,10 @@ RULE = ("14 LIVE cases per run: real children (prctl names with parentheses/blan
         "EACCES x re-read) for name/status/cpu_num; 1-8 threads with their own names, vanishing threads, dead/zombie owner; "
         "name() as a str in child interpreters started with each available file-system encoding (utf-8; ascii = LC_ALL=C with "
         "UTF-8 mode and locale coercion off) for names of bytes >= 0x80 that are well-formed UTF-8 (2/3/4-byte, range ends), "
-        "truncated, overlong, surrogates, > U+10FFFF, stray bytes; interpreter modes: ALL record layouts (N = 39..52, short records raising IndexError, status without "
+        "truncated, overlong, surrogates, > U+10FFFF, stray bytes; SIZE: status files larger than the 32 KiB read buffer (5000-11000 supplementary groups in the Groups: "
+        "line, built inside Gallina from run lengths) with byte 32768 inside the Groups line, right after its newline, inside the "
+        "digits of Threads:\\t128, inside 31337 of voluntary_ctxt_switches and inside the key nonvoluntary_ctxt_switches, plain and "
+        "inside oneshot(), one under -bb; a task directory of 400 threads; interpreter modes: ALL record layouts (N = 39..52, short records raising IndexError, status without "
         "ctxt lines, non-UTF-8 names, threads, /proc listing, ascii child, history, read fault) under each of python -bb, -O and "
         "-W error, plus an 18 % sample of every other kind under -bb/-O/-W error/-X dev; name() histories on ONE Process object (2-4 kernel states, same pid: extended from "
         "cmdline, exec to a program sharing the 15-byte comm, argv[0] matching or not, blanks as separators, zombie with empty "
@@ -45,6 +48,9 @@ TRUSTED = ["correspondence harness props/C06.py + pv/ (fake /proc tree; os.scand
            "CPython re engine agrees with the four hand-written scanners of coq/C06/Model.v; glob/fnmatch agree with glob_tty/"
            "glob_pts (both exercised by the run)"]
 ASSUMPTIONS = ["CPython semantics of bytes.find/rfind/split/strip/isdigit, int(), float() on integral text, list.sort, dict are modelled, not verified",
+               "big records (status > 32 KiB, 400-thread task directories) are not printed byte by byte by Coq: the harness rebuilds them with "
+               "its Python twin of the printer and must reproduce Coq's length, checksum and first 64 bytes; the twin is also what "
+               "places the 32768 boundary (checked against the planned byte)",
                "float()/int() input longer than 300 digits, float literals that are not integers, and non-ASCII state "
                "tokens are outside the model (OutOfModel, skipped)",
                "no latin-1 (or other 8-bit) locale is installed on this host: the latin-1 decoder is proved (round trip) but only utf-8 and "
@@ -212,8 +218,19 @@ def _stat_case(rng, comm=None, cls=None, known_high=False):
 
 
 OTHER_PRE = ["Umask:\t0022", "State:\tS (sleeping)", "Tgid:\t4242", "Ngid:\t0", "Pid:\t4242", "PPid:\t1", "TracerPid:\t0"]
-OTHER_MID = ["FDSize:\t64", "Groups:\t4 24 27 1000 ", "NStgid:\t4242", "NSpid:\t4242", "VmPeak:\t    1000 kB",
-             "VmSize:\t     900 kB"]
+OTHER_MID = ["NStgid:\t4242", "NSpid:\t4242", "Kthread:\t0", "VmPeak:\t    1000 kB", "VmSize:\t     900 kB"]
+GROUP_RUNS = [[], [], [["0", 1]], [["4", 1], ["24", 1], ["27", 1], ["1000", 1]], [["65534", 40]],
+              [["1", 3], ["4294967295", 2], ["10", 1]]]
+
+
+def _groups(case):
+    """the groups of a status case as a list of decimal strings; given as [gid, count] runs (corpus cases from before the
+    groups field have none: the kernel then prints 'Groups:\\t \\n')"""
+    return [g for g, n in case.get("groups", []) for _ in range(n)]
+
+
+def _fd(case):
+    return case.get("fd", ["FDSize:\t64"])
 OTHER_POST = ["SigQ:\t0/63432", "SigPnd:\t0000000000000000", "CapEff:\t000001ffffffffff", "Seccomp:\t0",
               "Cpus_allowed:\tff", "Cpus_allowed_list:\t0-7", "Mems_allowed_list:\t0"]
 OTHER_TAIL = [[], [], ["x86_Thread_features:\t", "x86_Thread_features_locked:\t"], ["Future_key:\t17"]]
@@ -229,7 +246,8 @@ def _sub(rng, lines):
 def _status_case(rng, comm=None, cls=None):
     comm = _comm(rng, 15 if rng.random() < 0.9 else 40) if comm is None else comm
     c = {"kind": "status", "comm": comm.hex(), "pre": _sub(rng, OTHER_PRE), "mid": _sub(rng, OTHER_MID),
-         "post": _sub(rng, OTHER_POST), "tail": rng.choice(OTHER_TAIL),
+         "post": _sub(rng, OTHER_POST), "tail": rng.choice(OTHER_TAIL), "fd": rng.choice([["FDSize:\t64"], ["FDSize:\t256"], []]),
+         "groups": rng.choice(GROUP_RUNS), "oneshot": rng.random() < 0.3,
          "uid": [rng.choice(IDS) for _ in range(4)], "gid": [rng.choice(IDS) for _ in range(4)],
          "threads": rng.choice([1, 2, 99, 32768, 2 ** 32]),
          "ctx": None if rng.random() < 0.1 else [rng.choice(COUNTERS), rng.choice(COUNTERS)], "expect_spec": True}
@@ -339,6 +357,71 @@ def _name_hist_case(rng):
         steps.append({"comm": c.hex(), "state": state, "cmd": cmd, "stat": stat, "starttime": start,
                       "touch": rng.sample(["str", "as_dict", "name", "repr"], rng.choice([0, 0, 1, 2]))})
     return {"kind": "name_hist", "cls": "name-history-%d" % n, "pid": PID, "steps": steps, "expect_spec": True}
+
+
+def _digest(data):
+    a = 7
+    for c in data:
+        a = (a * 257 + c + 1) % 2147483629
+    return {"t": "Digest", "a": [len(data), a, {"b": data[:64].hex()}]}
+
+
+def _same_digest(what, coq_digest, data):
+    if coq_digest != _digest(data):
+        raise RuntimeError("C06 harness: the Python twin of the Coq printer built a different %s (%r vs %r)"
+                           % (what, _digest(data)["a"][:2], coq_digest["a"][:2]))
+
+
+BUF = 32 * 1024        # psutil's FILE_READ_BUFFER_SIZE: the status file is not bounded by it
+
+
+def _big_status_case(rng, where, total=None):
+    """A status record larger than the read buffer: `where` says what the byte at offset 32768 belongs to."""
+    c = _status_case(rng, comm=rng.choice([b"sshd", b"many) groups (x"]), cls="status-big-" + where)
+    c.update(threads=128, ctx=[31337, 7], fd=["FDSize:\t64"], groups=[], oneshot=rng.random() < 0.5, big=True)
+    data0 = _py_k_status(c)                       # with the empty list "Groups:\t \n"
+    g_end = data0.index(b"Groups:\t ") + len(b"Groups:\t ")          # offset just after the blank
+    if where == "inside-groups":
+        need = (total or 40000) - len(data0)
+    elif where == "groups-line-end":              # the newline of the Groups line is byte 32767: next line starts at 32768
+        need = BUF - (g_end + 1)
+    elif where == "threads-digits":               # boundary between '1' and '28' of Threads:\t128
+        need = BUF - (data0.index(b"Threads:\t128") + len(b"Threads:\t1"))
+    elif where == "ctxt-digits":                  # boundary inside 31337
+        need = BUF - (data0.index(b"voluntary_ctxt_switches:\t31337") + len(b"voluntary_ctxt_switches:\t313"))
+    elif where == "ctxt-key":                     # boundary inside the key "nonvoluntary_ctxt_switches"
+        need = BUF - (data0.index(b"nonvoluntary_ctxt") + 7)
+    else:
+        raise ValueError(where)
+    # need = bytes to add to the Groups line: each gid costs len+1 ("g "): 6-byte, 3-byte and 2-byte pieces
+    b6, rest = divmod(need + 1, 6)     # an empty list already prints one blank: n gids add sum(len + 1) - 1 bytes
+    sol = None
+    for take in range(0, 3):                      # give back up to two 6-byte pieces to make the remainder representable
+        r = rest + 6 * take
+        for a in range(0, 6):
+            for c3 in range(0, 4):
+                if 2 * a + 3 * c3 == r and b6 - take >= 0:
+                    sol = (b6 - take, c3, a)
+                    break
+            if sol:
+                break
+        if sol:
+            break
+    n6, n3, n2 = sol
+    c["groups"] = [["65534", n6], ["10", n3], ["7", n2]]
+    data = _py_k_status(c)
+    assert len(data) == len(data0) + need, (len(data), len(data0), need)
+    c["probe"] = None
+    if where != "inside-groups":
+        probe = {"groups-line-end": b"\n", "threads-digits": b"1", "ctxt-digits": b"3", "ctxt-key": b"u"}[where]
+        assert data[BUF - 1:BUF] == probe, (where, data[BUF - 8:BUF + 8])
+        c["probe"] = probe.hex()
+    return c
+
+
+def _threads_big_case(rng, n):
+    return {"kind": "threads_big", "cls": "threads-big", "clk": 100, "n": n, "base": rng.choice([100000, 4190000]),
+            "comm": rng.choice([b"w) %d (", b"worker"]).hex(), "alive": True, "own_state": "53", "expect_spec": True}
 
 
 def _mutate(rng, data):
@@ -464,8 +547,14 @@ def _parse_real_status(data):
     if not (0 < iu and ig == iu + 1 and ig < it < iv and inv == iv + 1):
         raise LiveMismatch("real status file: line order Name < Uid,Gid < Threads < ctxt lines does not hold")
     hx = lambda ls: [l.hex() for l in ls]  # noqa
+    igr = at(b"Groups:\t")
+    if not (ig < igr < it) or not lines[igr].endswith(b" "):
+        raise LiveMismatch("real status file: Groups line %r" % lines[igr][:60])
+    body = lines[igr][8:-1]
     return {"name_line": lines[0].hex(), "pre": hx(lines[1:iu]), "uid": lines[iu][5:].decode().split("\t"),
-            "gid": lines[ig][5:].decode().split("\t"), "mid": hx(lines[ig + 1:it]), "threads": lines[it][9:].decode(),
+            "gid": lines[ig][5:].decode().split("\t"), "fd": hx(lines[ig + 1:igr]),
+            "groups": [] if body == b"" else body.decode().split(" "),
+            "mid": hx(lines[igr + 1:it]), "threads": lines[it][9:].decode(),
             "post": hx(lines[it + 1:iv]), "ctx": [lines[iv].split(b"\t")[1].decode(), lines[inv].split(b"\t")[1].decode()],
             "tail": hx(lines[inv + 1:])}
 
@@ -510,9 +599,14 @@ def _live_cases():
         names = sorted(t["comm"] for t in tasks if t["tid"] != e["pid"])
         if names != sorted(e["want_thread_names"]):
             raise LiveMismatch("live child %s: thread names %r, wanted %r" % (e["label"], names, e["want_thread_names"]))
+        st_rec = _parse_real_status(bytes.fromhex(e["status"]))
+        if e.get("want_groups") and (st_rec["groups"] != [str(i) for i in range(1, e["want_groups"] + 1)]
+                                     or len(e["status"]) // 2 <= BUF):
+            raise LiveMismatch("live child %s: Groups line does not list the %d gids set with setgroups() (%d listed, "
+                               "file of %d bytes)" % (e["label"], e["want_groups"], len(st_rec["groups"]), len(e["status"]) // 2))
         cases.append({"kind": "live", "cls": "live-" + e["label"], "label": e["label"], "pid": e["pid"], "clk": doc["clk"],
                       "btime": doc["btime"], "kernel": doc["kernel"], "comm": comm.hex(), "after": after,
-                      "real_stat": e["stat"], "status": _parse_real_status(bytes.fromhex(e["status"])),
+                      "real_stat": e["stat"], "status": st_rec,
                       "real_status": e["status"], "tasks": tasks, "tty": e["tty"], "live": e["live"],
                       "want_status": e["want_status"], "want_threads": e["want_threads"], "helper_uid": doc["uid"],
                       "helper_gid": doc["gid"], "parent": e["parent"], "expect_spec": True})
@@ -547,6 +641,12 @@ def gen_cases(rng, tier):
         cases.append(_threads_case(rng))
     for _ in range(50 * n):
         cases.append(_ppid_map_case(rng))
+    # size: status files larger than the 32 KiB read buffer (thousands of supplementary groups), the boundary at chosen places
+    big = [_big_status_case(rng, where) for where in ("inside-groups", "groups-line-end", "threads-digits", "ctxt-digits",
+                                                       "ctxt-key")]
+    big.append(_big_status_case(rng, "inside-groups", total=70000 if tier == "quick" else 400000))
+    big.append(dict(_big_status_case(rng, "threads-digits"), pyflags=["-bb"]))
+    big.append(_threads_big_case(rng, 400 if tier == "quick" else 3000))
     for enc in FS_ENCODINGS:        # an interpreter started with each file-system encoding (child process)
         cases.append(dict(_name_enc_case(rng, enc), comm=b"caf\xc3\xa9".hex()))
         for _ in range(24 * n):
@@ -599,6 +699,10 @@ def gen_cases(rng, tier):
     from pv import core as _core
     _core.assign_pyflags(cases, rng, modes=(("-bb",), ("-bb",), ("-O",), ("-W", "error"), ("-X", "dev")), frac=0.18,
                          only=lambda c: c["kind"] != "live")
+    # the big records cost seconds each inside Coq: spread them over the case list so that they fall into different shards
+    step = max(1, len(cases) // (len(big) + 1))
+    for i, c in enumerate(big):
+        cases.insert(min(len(cases), (i + 1) * step), c)
     if tier == "thorough":
         names = [b""]
         for a in CRIT:
@@ -622,6 +726,7 @@ def _py_k_status(c):
     ls = [b"Name:\t" + _esc(bytes.fromhex(c["comm"]))] + [x.encode() for x in c["pre"]]
     ls.append(b"Uid:\t" + b"\t".join(str(x).encode() for x in c["uid"]))
     ls.append(b"Gid:\t" + b"\t".join(str(x).encode() for x in c["gid"]))
+    ls += [x.encode() for x in _fd(c)] + [b"Groups:\t" + " ".join(_groups(c)).encode() + b" "]
     ls += [x.encode() for x in c["mid"]] + [b"Threads:\t%d" % c["threads"]] + [x.encode() for x in c["post"]]
     if c["ctx"]:
         ls += [b"voluntary_ctxt_switches:\t%d" % c["ctx"][0], b"nonvoluntary_ctxt_switches:\t%d" % c["ctx"][1]]
@@ -661,8 +766,12 @@ def coq_term(case):
             G.bo(MASKED_TTY), _pos(case["clk"]), G.by(case["btime"]), G.lst([node(d) for d in sub_stat["pts"]]), tty, own)
         st = case["status"]
         hl = lambda xs: G.lst([G.by(bytes.fromhex(x)) for x in xs])  # noqa
-        t_status = "run_status (Build_kstatus %s %s %s %s %s %s (Some (%s, %s)) %s)" % (
-            G.by(bytes.fromhex(case["comm"])), hl(st["pre"]), " ".join(G.by(x) for x in st["uid"] + st["gid"]), hl(st["mid"]),
+        runs = []                       # run-length form keeps the term small for thousands of gids
+        for g in st["groups"]:
+            runs.append(G.by(g))
+        t_status = "run_status (Build_kstatus %s %s %s %s %s %s %s %s (Some (%s, %s)) %s)" % (
+            G.by(bytes.fromhex(case["comm"])), hl(st["pre"]), " ".join(G.by(x) for x in st["uid"] + st["gid"]), hl(st["fd"]),
+            G.lst(runs), hl(st["mid"]),
             G.by(st["threads"]), hl(st["post"]), G.by(st["ctx"][0]), G.by(st["ctx"][1]), hl(st["tail"]))
         ts = ["(Build_kthread %s %s false)" % (G.by(str(t["tid"])), rec(t["tid"], t["comm"], t["after"])) for t in case["tasks"]]
         t_threads = "run_threads %s %s true %s" % (_pos(case["clk"]), G.lst(ts), own)
@@ -703,9 +812,11 @@ def coq_term(case):
         ls = lambda xs: G.lst([G.by(x) for x in xs])  # noqa
         ids = " ".join(G.by(str(x)) for x in case["uid"] + case["gid"])
         ctx = "None" if case["ctx"] is None else "(Some (%s, %s))" % (G.by(str(case["ctx"][0])), G.by(str(case["ctx"][1])))
-        return "run_status (Build_kstatus %s %s %s %s %s %s %s %s)" % (
-            G.by(bytes.fromhex(case["comm"])), ls(case["pre"]), ids, ls(case["mid"]), G.by(str(case["threads"])),
-            ls(case["post"]), ctx, ls(case["tail"]))
+        runs = "(expand %s)" % G.lst(["(%s, %s)" % (G.by(g), G.nat(n)) for g, n in case.get("groups", [])])
+        return "%s (Build_kstatus %s %s %s %s %s %s %s %s %s %s)" % (
+            "run_status_big" if case.get("big") else "run_status",
+            G.by(bytes.fromhex(case["comm"])), ls(case["pre"]), ids, ls(_fd(case)), runs, ls(case["mid"]),
+            G.by(str(case["threads"])), ls(case["post"]), ctx, ls(case["tail"]))
     if k == "status_raw":
         return "run_status_raw %s" % G.by(bytes.fromhex(case["data"]))
     if k == "threads":
@@ -713,6 +824,12 @@ def coq_term(case):
                                             G.bo(t["gone"])) for t in case["threads"]]
         own = _kstat(PID, b"own", _own_after(case["own_state"]))
         return "run_threads %s %s %s %s" % (_pos(case["clk"]), G.lst(ts), G.bo(case["alive"]), own)
+    if k == "threads_big":
+        t = {"nfields": 52, "utime": 14, "stime": 12}
+        own = _kstat(PID, b"own", _own_after(case["own_state"]))
+        return "run_threads_n %s %s %s %s %s %s %s" % (_pos(case["clk"]), G.nat(case["n"]), G.z(case["base"]),
+                                                     G.by(bytes.fromhex(case["comm"])),
+                                                     G.lst([G.by(x) for x in _thread_after(t)]), G.bo(case["alive"]), own)
     if k == "threads_raw":
         ls = ["(%s, %s)" % (G.by(nm), _tfile(d)) for nm, d in case["listing"]]
         return "run_threads_raw %s %s %s %s" % (_pos(case["clk"]), G.lst(ls), G.bo(case["alive"]), G.by(bytes.fromhex(case["own"])))
@@ -766,7 +883,7 @@ def coq_struct(case, raw):
         return {"printed": raw[0], "procstat": raw[1], "model": raw[2], "spec": raw[3]}
     if k in ("status", "ppid_map", "stat_race", "name_enc", "name_hist"):
         return {"printed": raw[0], "model": raw[1], "spec": raw[2]}
-    if k == "threads":
+    if k in ("threads", "threads_big"):
         return {"printed": raw[0], "own": raw[1], "model": raw[2], "spec": raw[3]}
     return {"model": raw[0], "spec": None}
 
@@ -1146,21 +1263,37 @@ def _impl_run(case, coq, env):
         if k in ("status", "status_raw"):
             pid = PID
             fp.add(pid)
-            fp.write(pid, "status", unB(coq["printed"]) if k == "status" else bytes.fromhex(case["data"]))
-            return [
-                _call(psutil, pid, "uids", lambda r: [r.real, r.effective, r.saved]),
-                _call(psutil, pid, "gids", lambda r: [r.real, r.effective, r.saved]),
-                _call(psutil, pid, "num_threads", int),
-                _call(psutil, pid, "num_ctx_switches", lambda r: [r.voluntary, r.involuntary]),
-            ]
-        if k in ("threads", "threads_raw"):
+            if k == "status" and case.get("big"):
+                data = _py_k_status(case)
+                _same_digest("status file", coq["printed"], data)
+                if case.get("probe") and data[BUF - 1:BUF].hex() != case["probe"]:
+                    raise RuntimeError("C06 harness: byte 32767 of the big status file is not the planned one")
+            else:
+                data = unB(coq["printed"]) if k == "status" else bytes.fromhex(case["data"])
+            fp.write(pid, "status", data)
+            convs = [("uids", lambda r: [r.real, r.effective, r.saved]), ("gids", lambda r: [r.real, r.effective, r.saved]),
+                     ("num_threads", int), ("num_ctx_switches", lambda r: [r.voluntary, r.involuntary])]
+            if case.get("oneshot"):            # one object, all four inside one oneshot() block (shared cached read)
+                def four():
+                    p = psutil.Process(pid)
+                    with p.oneshot():
+                        return [outcome(getattr(p, m), cv) for m, cv in convs]
+                r = outcome(four)
+                return r["a"][0] if r["t"] == "Val" else [r] * 4
+            return [_call(psutil, pid, m, cv) for m, cv in convs]
+        if k in ("threads", "threads_raw", "threads_big"):
             pid = PID
             fp.add(pid)
-            fp.write(pid, "stat", unB(coq["own"]) if k == "threads" else bytes.fromhex(case["own"]))
+            fp.write(pid, "stat", bytes.fromhex(case["own"]) if k == "threads_raw" else unB(coq["own"]))
             task = os.path.join(root, str(pid), "task")
             shutil.rmtree(task)
             os.makedirs(task)
-            if k == "threads":
+            if k == "threads_big":
+                after = _thread_after({"nfields": 52, "utime": 14, "stime": 12})
+                items = [(str(case["base"] + i), _py_k_stat(case["base"] + i, bytes.fromhex(case["comm"]), after))
+                         for i in range(case["n"])]
+                _same_digest("task directory", coq["printed"], b"".join(d for _, d in items))
+            elif k == "threads":
                 items = [(str(t["tid"]), None if t["gone"] else unB(pr)) for t, pr in zip(case["threads"], coq["printed"])]
             else:
                 items = [(nm, d if d in (None, "denied") else bytes.fromhex(d)) for nm, d in case["listing"]]
@@ -1237,7 +1370,7 @@ def gen_tables(impl_dir, out_dir):
 
 
 MANIFEST = {
-    "text": "69 theorems (Coq 8.16, all closed under the global context) over the Gallina transcription of _parse_stat_file, the "
+    "text": "70 theorems (Coq 8.16, all closed under the global context) over the Gallina transcription of _parse_stat_file, the "
             "stat-fed accessors, boot_time(), the nested wrap_exceptions + Process.status() front end, the four status-file regex "
             "scanners, threads(), pids()/ppid_map() and get_terminal_map() with its two glob() calls. For EVERY kernel-formatted stat "
             "record (any comm bytes of any length, every record length N >= 39 incl. 39..41 without blkio, any digit strings): "
@@ -1251,7 +1384,7 @@ MANIFEST = {
             "(any position of the btime line), exact values of different ticks >= 1/CLK apart and twice the float tolerance < 1/CLK; "
             "terminal() = path of the last listed node with the task's (major, minor) for EVERY /dev and /dev/pts listing (any nodes, "
             "duplicates, vanished nodes, dot-files, non-tty names; major < 2^12, minor < 2^20), sound and complete; constructing "
-            "Process never fails. For every status file (any comm) uids/gids/num_threads exact; num_ctx_switches exact for comm <= 15 "
+            "Process never fails. For every status file (any comm, ANY number of supplementary groups - the file has no size bound) uids/gids/num_threads exact; num_ctx_switches exact for comm <= 15 "
             "bytes (bound sharp), NotImplementedError when the lines are absent. threads() exact for any threads with any names; "
             "ppid_map()/pids() exact for any /proc listing (vanished, unreadable, non-numeric entries). Witness for the pre-fix "
             "signed tty_nr kept. Tied to the code by running the real psutil (public API, fake /proc and /dev, patched CLOCK_TICKS, "
